@@ -101,7 +101,7 @@ class Run:
         for f in self.failures:
             k = is_known(f)
             if k:
-                seen_known[k['id']] = k
+                seen_known[k['key']] = k
             else:
                 real_failures.append(f)
         for k in seen_known.values():
@@ -109,6 +109,11 @@ class Run:
 
         os.makedirs(os.path.join(common.VERIF, 'replays'), exist_ok=True)
         stamp = '%s_%s_%d' % (prop, self.tier, self.seed)
+        for suffix in ('_oracle.json', '_tie.json', '_proof.json'):
+            try:
+                os.unlink(os.path.join(common.VERIF, 'replays', stamp + suffix))
+            except OSError:
+                pass
         if real_failures:
             f = real_failures[0]
             path = os.path.join('replays', stamp + '_oracle.json')
